@@ -286,19 +286,31 @@ def evaluate(prop: Prop, cases: list[dict[str, Any]], workers: int) -> list[dict
     records = []
     requests = []
     req_index = []
+    crashed = 0
     for i, (case, impl, err) in enumerate(impl_results):
         if err is not None:
-            raise Infra(f"harness crashed on case {json.dumps(case, default=str)[:800]}:\n{err}")
+            # the harness could not drive the implementation through this case: on the unchanged tree
+            # this never happens, so it is reported as a broken correspondence (the model no longer
+            # describes this code), not as an infrastructure failure - unless it is systematic
+            crashed += 1
+            records.append({"case": case, "impl": {"harness_exception": err}, "model": None,
+                            "disagree": "the implementation could not be driven through this case: " + err[-600:],
+                            "monitor": [], "crashed": True})
+            continue
         rec = {"case": case, "impl": impl, "model": None, "disagree": None, "monitor": []}
         req = prop.model_request(case, impl)
         if req is not None:
             requests.append(req)
-            req_index.append(i)
+            req_index.append(len(records))
         records.append(rec)
+    if crashed and crashed == len(impl_results) and len(impl_results) >= 20:
+        raise Infra(f"the harness crashed on every case, e.g.:\n{records[0]['disagree']}")
     outs = run_model(requests)
     for i, out in zip(req_index, outs):
         records[i]["model"] = out
     for rec in records:
+        if rec.get("crashed"):
+            continue
         if rec["model"] is not None:
             rec["disagree"] = prop.compare(rec["case"], rec["impl"], rec["model"])
         rec["monitor"] = prop.monitor(rec["case"], rec["impl"])
